@@ -321,7 +321,8 @@ func (self *linkedPairs) Get(key string) (*Pair, int) {
 	}
 linear_search:
 	for i := 0; i < self.size; i++ {
-		if n := self.At(i); n.Key == key {
+		// a softly removed pair is the zero Pair: its empty key must not answer a lookup of ""
+		if n := self.At(i); n.Key == key && (key != "" || n.Value.Exists()) {
 			return n, i
 		}
 	}
